@@ -26,7 +26,14 @@ import (
 	"verif/engine/explore"
 )
 
-const root = "/verif"
+var root = rootDir()
+
+func rootDir() string {
+	if r := os.Getenv("VERIF_ROOT"); r != "" {
+		return r
+	}
+	return "/verif"
+}
 
 func main() {
 	if len(os.Args) < 2 {
